@@ -97,6 +97,9 @@ class Check(object):
     trusted = ()
     rule = ''
     checker_cmd = 'cd lean && lake build && lake env lean <#print axioms file>'
+    # True: the model mirrors the code including its open known findings, so a correspondence break is
+    # reported (after the failing-input search) even when only KNOWN-FINDING monitor failures were seen
+    strict_correspondence = False
 
     def explore(self, tier, seed):
         raise NotImplementedError
@@ -157,10 +160,11 @@ class Check(object):
         obligations.append(('monitor:implementation-traces', not monitor_fail))
 
         searched = False
-        if (corr_fail or broken_build) and not monitor_fail:
+        only_known = bool(monitor_fail) and all(self.classify(f, known) is not None for f in monitor_fail)
+        if (corr_fail or broken_build) and (not monitor_fail or (self.strict_correspondence and only_known)):
             searched = True
             try:
-                monitor_fail = self.search(tier, seed, corr_fail)
+                monitor_fail = monitor_fail + list(self.search(tier, seed, corr_fail))
             except common.MachineryError as e:
                 print('MACHINERY-ERROR property=%s %s' % (prop, e))
                 return 2
@@ -183,7 +187,7 @@ class Check(object):
                                                           'case': f.case, 'details': f.details, 'seed': seed})
             lines.append('VIOLATION property=%s replay=%s' % (prop, path))
             violations = len(unlisted)
-        elif (corr_fail or broken_build) and not seen_known:
+        elif (corr_fail or broken_build) and (not seen_known or self.strict_correspondence):
             # the property is no longer shown to hold, but no failing input was found
             payload = {'property': prop, 'seed': seed, 'searched': searched}
             if broken_build:
